@@ -25,6 +25,10 @@ CHECKS = {
          "executable reference model of ECH encoding/reconstruction (draft §5.1, App. B) + total replay of every enumerated layout on the real NewConn",
          "Every compression subset of 6 shared extensions x every marker position x inner-ECH position x outer layout x padding x session-id length x AEAD is sealed by the reference sender and the record forwarded by the real Conn is compared byte for byte with the reference reconstruction; all model traces are replayed on the implementation.",
          "trusts tlsref/hpkeref (validated against crypto/tls and RFC 9180 vectors at every run); outer hellos never repeat an extension type", "§3 C03"),
+ "C04": ("fault_enumeration", "E1 enum",
+         "exhaustive fault catalogue applied at every applicable position of spec-built hellos; oracle on error class, alert bytes, Close and readability",
+         "Sixty fault kinds (every rule of the property statement) are applied at every applicable position of each base hello, including multi-fault pairs and +-1 on every length field of outer and re-sealed inner hellos and a record cut at every byte; for each the real NewConn must abort with an admissible class, write exactly the matching fatal alert, close the transport and leave nothing readable.",
+         "trusts tlsref/hpkeref; admissible classes per fault from the statement and draft §5.1/§7/§7.1; length mutations that leave a well-formed hello may be handled transparently", "§3 C04"),
 }
 
 NOT_YET = {}
